@@ -99,7 +99,11 @@ class BackgroundTimePDF(
         # interval.
         on = self._livetime.is_on(times)
 
-        self._pd[on] = self._time_flux_profile(t=times[on]) / self._S
+        # If the time flux profile does not overlap with any detector on-time,
+        # i.e. S = 0, the probability density is zero for all events (and not
+        # 0/0 = nan).
+        if self._S > 0:
+            self._pd[on] = self._time_flux_profile(t=times[on]) / self._S
 
     def get_pd(
             self,
